@@ -33,8 +33,11 @@
 
    Abstractions (listed as assumptions of C10): a mailbox accepts every exit signal (unbounded Urgent queue);
    unregisterProcess sends its exit messages in one step; a process whose ProcessInit is still running is
-   treated like a registered one (it can be the target of more steps than in reality); the parent of a process
-   whose start failed learns it through the error returned by Spawn - modelled as the same exit signal. *)
+   treated like a registered one (it can be the target of more steps than in reality).  The spawner of a process
+   whose ProcessInit failed is NOT sent anything (the LinkChild relation is added by process.Spawn only after a
+   successful spawn): it gets the error of Spawn and does with it what it likes - a supervisor leaves
+   handleAction with that error (bypass of its protocol: an environment terminate step), a plain actor may
+   go on. *)
 From Ergo Require Import Common.Base.
 
 Inductive kind := KActor | KSup | KPool.
@@ -116,9 +119,9 @@ Definition select (g : nat -> proc -> bool) (s : state) : list nat := select_fro
 (* is c a process that is told about the end of i?
    CleanupTarget(i) = relations (consumer, i): the LinkParent children of i and, when i was spawned with
    LinkChild, its parent.  After a failed init: CleanupConsumer(i) = the LinkChild children of i, then (repaired
-   code) RouteTerminatePID(i) = its LinkParent children; the spawner gets the error from Spawn. *)
+   code) RouteTerminatePID(i) = its LinkParent children; the spawner only gets the error from Spawn (no signal). *)
 Definition consumer (cf : cfg) (b : bool) (i : nat) (pi : proc) (c : nat) (pc : proc) : bool :=
-  (is_parent pi c && lc pi) ||
+  (negb b && is_parent pi c && lc pi) ||
   (is_parent pc i && ((lp pc && (negb b || init_consumers cf)) || (b && lc pc))).
 
 Definition sender_pid (sd : sender) (i : nat) (pi : proc) : nat :=
@@ -200,9 +203,23 @@ Definition finish (s : state) (i : nat) : option state :=
 
 (* any registered process may stop at any time for any reason: Node.Kill, an error or a panic of a callback,
    a failed restart inside handleAction (bypass of the shutdown protocol), init = true: a failing ProcessInit *)
+Definition memb (x : nat) (l : list nat) : bool := existsb (Nat.eqb x) l.
+
+(* a process still inside ProcessInit has never been recorded by its supervisor (s.children[pid] is set after
+   Spawn returned): it is in no wait set *)
+Definition awaited (s : state) (i : nat) (pi : proc) : bool :=
+  match parent pi with
+  | Some q => match get s q with
+              | Some pq => match st pq with Shutting w => memb i w | _ => false end
+              | None => false
+              end
+  | None => false
+  end.
+
 Definition terminate (s : state) (i : nat) (b : bool) : option state :=
   match get s i with
-  | Some pi => if registered (st pi) then Some (upd s i (fun p => set_st p (Dying b))) else None
+  | Some pi => if registered (st pi) && negb (b && awaited s i pi)
+               then Some (upd s i (fun p => set_st p (Dying b))) else None
   | None => None
   end.
 
